@@ -92,7 +92,7 @@ func (c Cons) definitelyViolates(v string) bool {
 	case "regex":
 		re, err := regexp.Compile(c.Args[0])
 		return err == nil && !re.MatchString(v)
-	case "even":
+	case "even", "isEven":
 		return !isInt || atoi(v)%2 != 0
 	}
 	return false
@@ -153,6 +153,11 @@ func (evenC) Execute(param string, _ ...string) bool {
 	return err == nil && n%2 == 0
 }
 
+// evenCapC is the same constraint under a name with a capital letter (names are case-sensitive text too)
+type evenCapC struct{ evenC }
+
+func (evenCapC) Name() string { return "isEven" }
+
 func wireEsc(p string) string {
 	return strings.NewReplacer("%", "%25", "?", "%3F", "#", "%23", " ", "%20").Replace(p)
 }
@@ -205,6 +210,7 @@ func check(c Case) vk.Verdict {
 	}
 	app := fiber.New(fiber.Config{CaseSensitive: c.CS, StrictRouting: c.Strict, UnescapePath: c.Unesc})
 	app.RegisterCustomConstraint(evenC{})
+	app.RegisterCustomConstraint(evenCapC{})
 	hit := 0
 	var got []string
 	var gotPath, routePath string
@@ -408,11 +414,14 @@ func forcedViolation(c Case) bool {
 var consPool = []Cons{{"int", nil}, {"bool", nil}, {"float", nil}, {"alpha", nil}, {"guid", nil}, {"minLen", []string{"2"}}, {"maxLen", []string{"3"}},
 	{"len", []string{"2"}}, {"betweenLen", []string{"2", "4"}}, {"min", []string{"5"}}, {"max", []string{"50"}}, {"range", []string{"10", "20"}},
 	{"datetime", []string{"2006-01-02"}}, {"regex", []string{`^[abc]+x?$`}}, {"regex", []string{`[a-c]+`}}, {"regex", []string{`^\d{2}-\d{2}$`}},
-	{"regex", []string{`^[a-z.]+$`}}, {"regex", []string{`^a/b$`}}, {"even", nil}}
+	{"regex", []string{`^[a-z.]+$`}}, {"regex", []string{`^a/b$`}}, {"even", nil}, {"isEven", nil},
+	// constraint data is case-sensitive text whatever the routing configuration says
+	{"regex", []string{`^\D+$`}}, {"regex", []string{`^[A-Z]+$`}}, {"regex", []string{`^\w\W$`}}, {"datetime", []string{"Jan-02"}}}
 
 var valPool = []string{"1", "12", "15", "7", "100", "-3", "+4", "true", "x", "ab", "abc", "abcd", "1.5", "2020-02-03",
 	"CD2C1638-1638-72D5-1638-DEADBEEF1638", "a1", "é", "ééé", "0", "18", "a-b", "a.b", "", "12a", ":id", "<int>", "12-34", "b", "cab", "a/b", "16", "4", "99999999999999999999",
 	// letters whose Unicode lower-case form has another byte length (case-insensitive routing must not shift offsets)
+	"ABC", "Feb-03", "a!", "XY",
 	"\u212a12", "\u2126x", "\u0130b", "\u023aab", "x\u212a"}
 
 var firstLits = []string{"/", "/u", "/user/", "/a-", "/us/", "/v1/"}
